@@ -1,6 +1,8 @@
 import Capella.Lemmas.Svg
 import Capella.Lemmas.SvgDefsUnique
 import Capella.Lemmas.Wrap
+import Capella.Lemmas.WrapChars
+import Capella.Lemmas.SvgText
 import Capella.Gen.StylesWF
 
 /-!
@@ -15,7 +17,7 @@ view box. Label geometry (PIL metrics) and svgwrite's serialisation/escaping are
 property is *partial* there; text wrapping is proved for every text-extent function.
 -/
 namespace Capella.Props.C18
-open Capella.Svg Capella.Wrap Capella.Gen.Styles
+open Capella.Svg Capella.Wrap Capella.Gen.Styles Capella.SvgText
 
 /-- The generated tables are well-formed (kernel-checked, chunk by chunk): every marker named by a
 style exists as a factory and returns an element with the id it is given; every paint value is one
@@ -511,6 +513,59 @@ theorem labels_rendered_in_order (sp : Char → Bool) (extW extH : List Char →
         · exact h1
         · exact hall p hp
 
+
+/-- **Rendering invents no character**: every character of a rendered label line is a character of the label, the
+joining space of the wrap, or a dot of the ellipsis. -/
+theorem rendered_chars_from_label (sp : Char → Bool) (extW extH : List Char → Rat) (text : List (List Char))
+    (rectW rectH pad icon : Rat) (out : List (List Char)) (h : renderLabel sp extW extH text rectW rectH pad icon = some out) :
+    ∀ l ∈ out, ∀ c ∈ l, c = '.' ∨ c = ' ' ∨ ∃ ln ∈ text, c ∈ ln := by
+  unfold renderLabel at h
+  split at h
+  · cases h
+  · simp only at h
+    split at h
+    · cases h
+    · simp only [Option.some.injEq] at h
+      subst h
+      intro l hl c hc
+      rcases vOverflow_chars extW extH _ rectH _ l hl c hc with h | h | ⟨ln, hln, h⟩
+      · exact .inl h
+      · exact .inr (.inl h)
+      · rcases wordWrap_chars extW _ text ln hln c h with h' | h'
+        · exact .inr (.inl h')
+        · exact .inr (.inr h')
+
+/-- **Label text is escaped, never interpreted — given the escaping svgwrite applies** (`_escape_cdata`, compared
+with the real `TSpan(...).tostring()` on every run): for every label whose characters are XML characters, every
+rendered line, written as the text of a `<tspan>`, contains no `<`, consists of XML characters only, and is read
+back by an XML parser as exactly that line (the lines of `text.splitlines()` contain no CR, which a parser would
+normalise). -/
+theorem label_lines_xml_safe (sp : Char → Bool) (extW extH : List Char → Rat) (text : List (List Char))
+    (hlegal : ∀ ln ∈ text, ln.all xmlLegal = true) (hcr : ∀ ln ∈ text, '\r' ∉ ln)
+    (rectW rectH pad icon : Rat) (out : List (List Char)) (h : renderLabel sp extW extH text rectW rectH pad icon = some out) :
+    ∀ l ∈ out, '<' ∉ escText l ∧ (escText l).all xmlLegal = true ∧ unesc (escText l) = some l := by
+  intro l hl
+  have hnocr : '\r' ∉ l := by
+    intro hc
+    rcases rendered_chars_from_label sp extW extH text rectW rectH pad icon out h l hl _ hc with h' | h' | ⟨ln, hln, hc'⟩
+    · revert h'; decide
+    · revert h'; decide
+    · exact hcr ln hln hc'
+  have hall : l.all xmlLegal = true := by
+    rw [List.all_eq_true]
+    intro c hc
+    rcases rendered_chars_from_label sp extW extH text rectW rectH pad icon out h l hl c hc with rfl | rfl | ⟨ln, hln, hc'⟩
+    · decide
+    · decide
+    · exact (List.all_eq_true.mp (hlegal ln hln)) c hc'
+  exact ⟨(escText_safe l).1, (escText_safe l).2 hall, escText_roundtrip l hnocr⟩
+
+/-- the same for attribute values (element ids, `class` with the style class and the `context-…` tokens):
+no `<`, no `"`, XML characters only, read back unchanged -/
+theorem attribute_values_xml_safe (v : List Char) (hlegal : v.all xmlLegal = true) :
+    '<' ∉ escAttr v ∧ '"' ∉ escAttr v ∧ (escAttr v).all xmlLegal = true ∧ unesc (escAttr v) = some v :=
+  ⟨(escAttr_safe v).1, (escAttr_safe v).2.1, (escAttr_safe v).2.2 hlegal, escAttr_roundtrip v⟩
+
 /-! ## Non-vacuity -/
 
 -- an association edge with an overridden end marker in a class diagram: referenced = deployed
@@ -563,5 +618,9 @@ example : renderLabel (· = ' ') (fun s => (s.length : Rat)) (fun _ => 1) ["ab c
     = some ["ab cd".toList, "efg hi".toList, "jk".toList] := by decide +kernel
 -- a box narrower than icon + padding: `assert max_text_width >= 0` fails
 example : renderLabel (· = ' ') (fun s => (s.length : Rat)) (fun _ => 1) ["ab".toList] 10 9 1 20 = none := by decide +kernel
+
+-- markup in a label is escaped and read back as text
+example : escText "a<b>&amp;]]>".toList = "a&lt;b&gt;&amp;amp;]]&gt;".toList ∧
+    unesc "a&lt;b&gt;&amp;amp;]]&gt;".toList = some "a<b>&amp;]]>".toList := by decide +kernel
 
 end Capella.Props.C18
